@@ -93,8 +93,8 @@ type node interface {
 	// setModTime sets the modification time of the node.
 	setModTime(mtime time.Time, u avfs.UserReader) bool
 
-	// setOwner sets the owner of the node.
-	setOwner(uid, gid int)
+	// setOwner sets the owner of the node if the user u is allowed to.
+	setOwner(uid, gid int, u avfs.UserReader, admin bool) bool
 
 	// size returns the size of the node.
 	size() int64
